@@ -154,8 +154,12 @@ func sweepPlan(seed uint64, g int) *Plan {
 		}
 		ops = append(ops, Op{Kind: "reader", In: &in, Del: randDelivery(r, len(in.Bytes()), 0)})
 		ops = append(ops, Op{Kind: "file", In: &in})
-		ops = append(ops, Op{Kind: "detect", In: &in, Reuse: true})
+		ops = append(ops, Op{Kind: "detect", In: &in, Reuse: true, Slot: 1 + (e % 3)})
+		if e%2 == 1 {
+			ops = append(ops, Op{Kind: "use", Slot: 1 + ((e - 1) % 3)})
+		}
 	}
+	p.Slots = 3
 	p.Tasks = [][]Op{ops}
 	return p
 }
@@ -166,6 +170,9 @@ func (c *c04) Plan(seed uint64, tier string, worker, workers, idx int) *Plan {
 	}
 	r := core.NewRand(core.Mix(seed, 0xc04, uint64(worker), uint64(idx)))
 	p := &Plan{Prop: "C04", Limit0: c04Limits[r.Intn(len(c04Limits))], MaxSteps: 60000000}
+	if r.Chance(1, 12) {
+		p.Limit0 = bigLimit(r)
+	}
 	p.Pool = []string{"adversarial", "adversarial", "steal", "steal", "lifo", "fifo"}[r.Intn(6)]
 	p.Sched = core.SchedSpec{Kind: []string{"random", "pct", "rtc"}[r.Intn(3)], D: r.Range(1, 3), Preempt: 30 + r.Intn(400), Horizon: 200}
 	nt := []int{1, 1, 2, 2, 3, 4}[r.Intn(6)]
@@ -209,6 +216,8 @@ func (c *c04) Plan(seed uint64, tier string, worker, workers, idx int) *Plan {
 			p.Shared = append(p.Shared, cast[r.Intn(len(cast))])
 		}
 	}
+	p.Slots = 4
+	slot := 0
 	for t := 0; t < nt; t++ {
 		var ops []Op
 		reuse := r.Chance(1, 3) // this caller reads every input into one buffer
@@ -235,7 +244,16 @@ func (c *c04) Plan(seed uint64, tier string, worker, workers, idx int) *Plan {
 				op.Kind = "file"
 				op.Del = randDelivery(r, len(in.Bytes()), 15)
 			}
+			// some results are kept by the caller and looked at again later, after the
+			// buffer they were detected in has been reused for other content
+			if r.Chance(1, 3) && slot < p.Slots {
+				slot++
+				op.Slot = slot
+			}
 			ops = append(ops, op)
+			if slot > 0 && r.Chance(1, 4) {
+				ops = append(ops, Op{Kind: "use", Slot: 1 + r.Intn(slot)})
+			}
 			if nt == 1 && r.Chance(1, 6) {
 				ops = append(ops, Op{Kind: "setlimit", Limit: c04Limits[r.Intn(len(c04Limits))]})
 			}
@@ -266,6 +284,15 @@ func (c *c04) Check(rr *RunResult, st *Stats) []Failure {
 			st.Ops++
 			if op.Kind == "setlimit" {
 				limit = op.Limit
+				continue
+			}
+			if op.Kind == "use" {
+				if res.SlotWasSet {
+					st.Probe("earlier_value_reobserved")
+					if !res.Same {
+						fs = append(fs, Failure{"earlier-value-changed", fmt.Sprintf("%s: the value returned earlier by t%d op%d now shows %s (it showed something else when it was returned)", describe(ti, oi, op), res.UseOf[0], res.UseOf[1], res.R.Key())})
+					}
+				}
 				continue
 			}
 			x := rr.W.Bytes[ti][oi]
